@@ -16,6 +16,14 @@ def main():
             sys.stdout.write(r.stdout + r.stderr)
             if r.returncode != 0:
                 sys.exit(f"table generation failed for {p}")
+        # the translated / reflected Gen files of this property: the same hook a check runs (so that a
+        # fresh copy never builds against whatever coq/Gen happened to hold when it was committed)
+        if hasattr(m, "regenerate"):
+            try:
+                with core._Lock("pipeline"):
+                    m.regenerate(core.Chk(m, "quick", 0, None))
+            except Exception as e:
+                sys.exit(f"regeneration failed for {p}: {e!r}")
         if m.coq_targets is None:
             targets = None
         elif targets is not None:
